@@ -15,17 +15,34 @@ ERR_OF = {"missing": ["Logic.LibraryNotFound"], "wrongname": ["Logic.LibraryNotF
           "broken": ["Syntax."], "nonutf8": ["IO"], "cycle": ["Logic.LibraryImportCyclic"]}
 
 
-def source(i, deps, kind):
+def edge(i, j, salt=0):
+    """the import set that stands for the edge i -> j: the library name itself or wrapped in only / except / prefix / rename"""
+    n = NAMES[j]
+    k = (3 * i + 5 * j + salt) % 7
+    if k == 1:
+        return "(only (g %s) v%s)" % (n, n)
+    if k == 2:
+        return "(prefix (g %s) from-%s-)" % (n, n)
+    if k == 3:
+        return "(except (g %s))" % n
+    if k == 4:
+        return "(rename (g %s) (v%s dep-%s))" % (n, n, n)
+    if k == 5:
+        return "(only (prefix (g %s) q) qv%s)" % (n, n)
+    return "(g %s)" % n
+
+
+def source(i, deps, kind, salt=0):
     n = NAMES[i]
-    imports = " ".join("(g %s)" % NAMES[j] for j in deps)
+    imports = " ".join(edge(i, j, salt) for j in deps)
     imp = "(import %s) " % imports if imports else ""
     style = (i + len(deps) + sum(deps)) % 3
     if style == 1 and deps:
         # one import declaration per dependency
-        imp = "".join("(import (g %s)) " % NAMES[j] for j in deps)
+        imp = "".join("(import %s) " % edge(i, j, salt) for j in deps)
     elif style == 2:
         # a leading declaration that completes before the ones holding the edges of the graph
-        imp = "(import (scheme base)) " + "".join("(import (g %s)) " % NAMES[j] for j in deps)
+        imp = "(import (scheme base)) " + "".join("(import %s) " % edge(i, j, salt) for j in deps)
     name = "(g zzz)" if kind == "wrongname" else "(g %s)" % n
     body = "(define v%s no-such-variable-%s)" % (n, n) if kind == "faulting" else "(define v%s %d)" % (n, 10 + i)
     text = "(define-library %s %s(export v%s) (begin %s))" % (name, imp, n, body)
@@ -110,6 +127,68 @@ def graphs(n):
         yield adj
 
 
+def program_directories(ctx, root, decoy, leg):
+    """several program files in DIFFERENT directories run one after another on ONE interpreter: each program's libraries are found beside that
+    program (the first program's directory, the working directory with its decoys and earlier failures do not matter)"""
+    rng = ctx.rng
+    jobs, meta = [], []
+    for case in range(60):
+        base = os.path.join(root, "pd%d" % case)
+        k = rng.choice([2, 2, 3])
+        order = rng.sample(range(3), k)          # program x lives in directory dx and imports library NAMES[x] (with a dependency for x = 2)
+        steps = [{"new": {"stdlib": False, "natives": False}}]
+        expect = []
+        bound = set()
+        for pos, x in enumerate(order):
+            d = os.path.join(base, "dir%d" % x)
+            os.makedirs(os.path.join(d, "g"), exist_ok=True)
+            open(os.path.join(d, "g", "%s.sld" % NAMES[x]), "wb").write(source(x, [3] if x == 2 else [], "healthy", case))
+            if x == 2:
+                open(os.path.join(d, "g", "d.sld"), "wb").write(source(3, [], "healthy", case))
+            fails = rng.random() < 0.25
+            prog = os.path.join(d, "prog%d.scm" % x)
+            lib = "nosuch" if fails else NAMES[x]
+            # import declarations only: Ruschm accepts no import after the first expression or definition evaluated on an interpreter
+            open(prog, "w").write("(import (g %s))\n" % lib)
+            arg = prog if (case + pos) % 2 == 0 else os.path.relpath(prog, decoy)
+            steps.append({"it": 0, "file": arg}); steps.append({"it": 0, "env_names": True})
+            if not fails:
+                bound |= {"v" + NAMES[x]}
+            expect.append((fails, set(bound), arg))
+        jobs.append({"id": "c14pd-%d" % case, "interps": [], "steps": steps, "fuel": 50000}); meta.append(expect)
+    recs = core.run_jobs(jobs, leg, timeout=900, tag="c14pd", env_extra={"__cwd": decoy})
+    for expect, rec in zip(meta, recs):
+        if rec is None or "steps" not in rec:
+            ctx.inconclusive_cases += 1; continue
+        st = rec["steps"][1:]
+        files = [a for _, _, a in expect]
+        for i, (fails, bound, arg) in enumerate(expect):
+            ctx.evaluations += 1
+            run_, names = st[2 * i], st[2 * i + 1]
+            kind, val = core.outcome(run_)
+            d = {"kind": "progdir", "programs": files[:i + 1], "position": i}
+            if fails:
+                if kind != "err" or not val.get("kind", "").startswith("Logic.LibraryNotFound"):
+                    ctx.violation(dict(d, what="a program importing a library that is not beside it must fail with library-not-found", observed=val, dedupe="pd-nofail"), {"case": d})
+                    break
+            elif kind != "ok":
+                ctx.violation(dict(d, what="a program file run after another one on the same interpreter did not find the library beside it", observed=val, first=(i == 0),
+                                   dedupe="pd-fail|%s" % (i == 0)), {"case": d})
+                break
+            kn, nv = core.outcome(names)
+            got = set(nv.keys()) if kn == "ok" and isinstance(nv, dict) else None
+            if got is not None and got != bound:
+                ctx.violation(dict(d, what="names bound after running the program files differ from what the programs define and import", expected=sorted(bound), observed=sorted(got),
+                                   dedupe="pd-names"), {"case": d})
+                break
+            if got is not None and any(nv[k2] != {"i": 10 + NAMES.index(k2[-1])} for k2 in got):
+                ctx.violation(dict(d, what="a value came from a library of another directory", observed=nv, dedupe="pd-values"), {"case": d}); break
+            ctx.count("program_files_run")
+        else:
+            ctx.nontriv("pd|%d|%s" % (len(expect), [f for f, _, _ in expect]))
+    ctx.legs.append("program-directories")
+
+
 def run(tier, seed):
     ctx = core.Ctx(PID, tier, seed, LEVEL)
     rng = ctx.rng
@@ -162,12 +241,12 @@ def run(tier, seed):
             os.makedirs(os.path.join(d, "g"))
             for i in range(n):
                 if kinds[i] != "missing":
-                    open(os.path.join(d, "g", "%s.sld" % NAMES[i]), "wb").write(source(i, adj[i], kinds[i]))
+                    open(os.path.join(d, "g", "%s.sld" % NAMES[i]), "wb").write(source(i, adj[i], kinds[i], ci))
             # the program directory is given absolute or relative to the process's working directory (which holds the decoys)
             spec = {"stdlib": False, "natives": False, "progdir": d if ci % 2 == 0 else os.path.relpath(d, decoy)}
         else:
             spec = {"stdlib": False, "natives": False,
-                    "libs": [{"name": ["g", NAMES[i]], "src": source(i, adj[i], kinds[i]).decode()} for i in range(n) if kinds[i] != "missing"]}
+                    "libs": [{"name": ["g", NAMES[i]], "src": source(i, adj[i], kinds[i], ci).decode()} for i in range(n) if kinds[i] != "missing"]}
             # registered-source mode must not fall back to files: run from an empty directory (the decoy dir has files, so use a spec progdir without any)
             spec["progdir"] = os.path.join(root, "empty")
         hist = list(itertools.product(range(n), repeat=3))
@@ -176,8 +255,10 @@ def run(tier, seed):
         steps = []
         for h in hist:
             steps.append({"new": spec})
-            for x in h:
-                steps.append({"it": -1, "src": "(import (g %s))" % NAMES[x]})
+            for hi, x in enumerate(h):
+                # the attempt itself is spelled as the plain name or through an import set that yields the same name
+                sp = ["(g %s)", "(only (g %s) v%s)", "(except (g %s))", "(g %s)"][(ci + hi + x) % 4]
+                steps.append({"it": -1, "src": "(import %s)" % (sp % ((NAMES[x],) * sp.count("%s")))})
                 steps.append({"it": -1, "env_names": True})
         jobs.append({"id": "c14-%d" % ci, "interps": [], "steps": steps, "fuel": 50000}); meta.append((mode, n, adj, kinds, hist))
     os.makedirs(os.path.join(root, "empty"), exist_ok=True)
@@ -262,8 +343,8 @@ def run(tier, seed):
                                        observed=sorted(got), dedupe="names"), {"case": d})
         if ok_case:
             ctx.nontriv(json.dumps([mode, adj, kinds]))
-    # decoy check: values come from the program directory
     ctx.legs.append(leg)
+    program_directories(ctx, root, decoy, leg)
     for (mode, n, adj, kinds, hist) in meta[:3] + meta[-2:]:
         ctx.sample({"mode": mode, "imports": {NAMES[i]: [NAMES[j] for j in adj[i]] for i in range(n)}, "kinds": list(kinds), "histories": len(hist)})
     shutil.rmtree(root, ignore_errors=True)
